@@ -61,8 +61,29 @@ def build_encode(variant, i):
     return {'env': env, 'old_env': dict(env), 'call': lambda: box.encode(dest=dest, depth=depth)}
 
 
+def build_header(variant, i):
+    import struct
+    g = lambda k: int(i[k])
+    pos0, total, size32, size64 = g('pos0'), g('total'), g('size32'), g('size64')
+    if total > 2_000_000 or pos0 < 0 or total < pos0:
+        raise ValueError('witness source too large (or not a source) to realise')
+    tb = {'mdat': b'mdat', 'uuid': b'uuid', 'non-ascii-type': b'\xff\xfe\xfd\xfc'}[variant]
+    content = struct.pack('>I', size32 % 2**32) + tb
+    if size32 == 1:
+        content += struct.pack('>Q', size64 % 2**64)
+    if tb == b'uuid':
+        content += bytes(range(16))
+    data = (b'\x11' * pos0 + content + b'\x22' * total)[:total]
+    src = io.BytesIO(data)
+    src.seek(pos0)
+    env = {'pos0': pos0, 'total': total, 'size32': size32, 'size64': size64, 'is_unset': lambda x: x is None}
+    return {'env': env, 'old_env': dict(env), 'call': lambda: mp4.Mp4Atom.parse(src, None, options=mp4.Options())}
+
+
 def build(key, variant, i):
     qual = key.split(':')[1]
+    if qual == 'Mp4Atom.parse':
+        return build_header(variant, i)
     if qual == 'Mp4Atom.encode':
         return build_encode(variant, i)
     if qual == 'TrackFragmentDecodeTimeBox.__setattr__':
